@@ -6,7 +6,7 @@ class C20(Prop):
     check_mod = "C20"
     drivers = [dict(pkg="internal/core", test="TestVerifPathSM", timeout=900)]
     n_quick, n_thorough, shard = 300, 6000, 100
-    ready = False
+    ready = True
     level = "proof"
     rule = 'histories = scripted witnesses (C19 finding, override, maxReaders, on-demand cycles) + random operation sequences (5-40 ops: Describe, AddPublisher, RemovePublisher, AddReader, RemoveReader, StaticReady/NotReady, TimerFire of each of the 4 timers, ReloadConf, Close, ops after Close) over random confs (publisher / runOnDemand / static / static on-demand, overridePublisher, maxReaders -1..3, every hook on/off), run on a real core.path; per operation the observed events (parent callbacks, Close() calls, hook and source log lines, answers) are compared with the model inside Coq; non-trivial = at least one stream was created; distinct = distinct (conf, history, observations)'
     trusted_base = ['Coq 8.16.1 kernel + VM (vm_compute for cases and for the _refuted witness)', 'in-package Go driver harness/inpkg/internal/core/zz_verif_pathsm_test.go (real core.path, recording parent, fake publishers/readers; timers fired through Stop()/Reset(0))', 'model Model/PathSM.v hand-written (transliteration of internal/core/path.go handlers, internal/hooks closures, staticsources.Handler start/stop protocol), tied by correspondence on every run']
